@@ -89,6 +89,64 @@ impl<'a> Visit<'a> for Collect {
     }
 }
 
+
+/// literals inside a function body / constant expression: byte strings, `hex!("..")`, `vec![1, 2, ..]`, `[1, 2, ..]` arrays
+#[derive(Default)]
+struct Lits { bytestrs: Vec<Vec<u8>>, hexes: Vec<Vec<u8>>, int_lists: Vec<Vec<u8>> }
+impl<'a> Visit<'a> for Lits {
+    fn visit_lit_byte_str(&mut self, l: &'a LitByteStr) { self.bytestrs.push(l.value()); }
+    fn visit_macro(&mut self, m: &'a Macro) {
+        let name = m.path.segments.last().map(|s| s.ident.to_string()).unwrap_or_default();
+        let body = m.tokens.to_string();
+        if name == "hex" { let h: String = body.chars().filter(|c| c.is_ascii_hexdigit()).collect(); if let Ok(b) = hex::decode(&h) { self.hexes.push(b); } }
+        if name == "vec" { let v: Option<Vec<u8>> = body.split(',').map(|x| x.trim().parse::<u8>().ok()).collect(); if let Some(v) = v { self.int_lists.push(v); } }
+    }
+    fn visit_expr_array(&mut self, a: &'a ExprArray) {
+        let v: Option<Vec<u8>> = a.elems.iter().map(|e| eval(e).and_then(|x| u8::try_from(x).ok())).collect();
+        if let Some(v) = v { if !v.is_empty() { self.int_lists.push(v); } }
+        visit::visit_expr_array(self, a);
+    }
+}
+fn lean_bytes(b: &[u8]) -> String { format!("[{}]", b.iter().map(|x| x.to_string()).collect::<Vec<_>>().join(", ")) }
+fn emit_bytes(ex: &mut Ex, s: &mut String, name: &str, doc: &str, v: Option<Vec<u8>>, want_len: Option<usize>) {
+    match v { Some(b) if want_len.map(|n| n == b.len()).unwrap_or(true) => writeln!(s, "/-- {} -/\ndef {} : List UInt8 := {}", doc, name, lean_bytes(&b)).unwrap(),
+        _ => { ex.fail(name, &format!("constant not found or unexpected shape ({})", doc)); writeln!(s, "def {} : List UInt8 := []", name).unwrap(); } }
+}
+
+fn byte_constants(ex: &mut Ex, s: &mut String) {
+    // Transaction::hash — the hard-coded hash used when the prunable part is absent
+    let f = read("src/blockdata/transaction.rs"); let it = items(&f);
+    let mut l = Lits::default(); if let Some(func) = find_fn(&it, "Transaction", "hash::Hashable", "hash") { l.visit_block(&func.block); }
+    emit_bytes(ex, s, "emptyPrunableHash", "`Transaction::hash`: constant pushed when `rct_signatures.p` is `None` (src/blockdata/transaction.rs)", l.int_lists.iter().find(|v| v.len() == 32).cloned(), Some(32));
+    let mut l = Lits::default(); if let Some(func) = find_fn(&it, "TxOutTarget", "", "check_view_tag") { l.visit_block(&func.block); }
+    emit_bytes(ex, s, "viewTagSalt", "`check_view_tag` salt (\"view_tag\")", l.int_lists.first().cloned(), None);
+    // block.rs — the two block-202612 identifiers
+    let f = read("src/blockdata/block.rs"); let it = items(&f);
+    for (cname, lname) in [("CORRECT_BLOCK_ID_202612", "correctId202612"), ("EXISTING_BLOCK_ID_202612", "existingId202612")] {
+        let mut l = Lits::default(); if let Some(c) = it.consts.iter().find(|c| c.ident == cname) { l.visit_expr(&c.expr); }
+        emit_bytes(ex, s, lname, &format!("`{}` (src/blockdata/block.rs)", cname), l.hexes.first().cloned(), Some(32));
+    }
+    // key.rs — the second generator H
+    let f = read("src/util/key.rs"); let it = items(&f);
+    let mut l = Lits::default(); if let Some(c) = it.consts.iter().find(|c| c.ident == "H") { l.visit_expr(&c.expr); }
+    emit_bytes(ex, s, "pointH", "`H` (src/util/key.rs): compressed second generator for amount commitments", l.hexes.first().cloned(), Some(32));
+    // onetime_key.rs — cofactor
+    let f = read("src/cryptonote/onetime_key.rs"); let it = items(&f);
+    match it.consts.iter().find(|c| c.ident == "MONERO_MUL_FACTOR").and_then(|c| eval(&c.expr)) {
+        Some(v) => writeln!(s, "/-- `MONERO_MUL_FACTOR` (src/cryptonote/onetime_key.rs) -/\ndef mulFactor : Nat := {}", v).unwrap(),
+        None => { ex.fail("mulFactor", "MONERO_MUL_FACTOR not found"); writeln!(s, "def mulFactor : Nat := 0").unwrap(); } }
+    // subaddress.rs — hash prefix
+    let f = read("src/cryptonote/subaddress.rs"); let it = items(&f);
+    let mut l = Lits::default(); if let Some(func) = it.free.iter().find(|f| f.sig.ident == "get_secret_scalar") { l.visit_block(&func.block); }
+    emit_bytes(ex, s, "subaddrSalt", "`get_secret_scalar` prefix (b\"SubAddr\\0\")", l.bytestrs.first().cloned(), None);
+    // ringct.rs — salts of the compact amount encoding
+    let f = read("src/util/ringct.rs"); let it = items(&f);
+    let mut l = Lits::default(); if let Some(func) = it.free.iter().find(|f| f.sig.ident == "xor_amount") { l.visit_block(&func.block); }
+    emit_bytes(ex, s, "amountSalt", "`xor_amount` salt (b\"amount\")", l.bytestrs.first().cloned(), None);
+    let mut l = Lits::default(); if let Some(func) = it.free.iter().find(|f| f.sig.ident == "mask") { l.visit_block(&func.block); }
+    emit_bytes(ex, s, "maskSalt", "`mask` salt (b\"commitment_mask\")", l.bytestrs.first().cloned(), None);
+}
+
 const NETS: [&str; 3] = ["Mainnet", "Testnet", "Stagenet"];
 const KINDS: [&str; 3] = ["Standard", "Integrated", "SubAddress"];
 const DENOMS: [&str; 5] = ["Monero", "Millinero", "Micronero", "Nanonero", "Piconero"];
@@ -256,6 +314,7 @@ pub fn run(outdir: &str) -> Vec<String> {
         Some(v) => writeln!(s, "/-- `MAX_VEC_MEM_ALLOC_SIZE` (src/consensus/encode.rs) -/\ndef CAP : Nat := {}", v).unwrap(),
         None => { ex.fail("CAP", "MAX_VEC_MEM_ALLOC_SIZE not found or not a constant expression"); writeln!(s, "def CAP : Nat := 0").unwrap(); }
     }
+    byte_constants(&mut ex, &mut s);
     writeln!(s, "end Gen").unwrap();
     std::fs::write(format!("{}/Consts.lean", outdir), s).unwrap();
     // ---- Tables.lean (network / address type)
